@@ -60,7 +60,9 @@ type Server struct {
 	conns    map[net.Conn]struct{}
 	closed   bool
 	wg       sync.WaitGroup
-	// ScanCount is the default number of keys examined by one SCAN call (redis: 10).
+	// ScanCount is the default number of keys examined by one SCAN call. Redis examines about 10 buckets per call and applies
+	// MATCH afterwards, so a call may return no key and a non-zero cursor at any point of a scan; with 2 keys per call that
+	// happens in almost every scan of a store with a few clients (sorted key order: queue:* before session:* before sub:*).
 	ScanCount int
 	// failNext > 0: the next dataset command is answered with an error and NOT executed (fault injection: a READONLY
 	// replica, an OOM reply, …); decremented per command.
@@ -78,7 +80,7 @@ func (s *Server) FailNext(n int) {
 
 // New creates a server without a listener (dataset + journal only).
 func New() *Server {
-	return &Server{dbs: map[int]db{}, conns: map[net.Conn]struct{}{}, ScanCount: 10}
+	return &Server{dbs: map[int]db{}, conns: map[net.Conn]struct{}{}, ScanCount: 2}
 }
 
 // Start creates a server listening on 127.0.0.1:<free port>.
